@@ -133,6 +133,15 @@ EXTRA.update({
     "srp-decorated.ts": ("typescript", "srp", 2, "@Injectable()\nclass UserManager {\n  run() {\n    return 1;\n  }\n}\n"),
     "srp-decorated-exported.ts": ("typescript", "srp", 2, "@Injectable()\nexport class UserHandler {\n  run() {\n    return 1;\n  }\n}\n"),
 })
+# a finding about one word of the module header: its line is the line of that word, not its offset inside the header text
+EXTRA.update({
+    "header-temporal-word.py": ("python", "file-header", 7, "#!/usr/bin/env python\n# tool\n\n\"\"\"\nPurpose: does things\n\nScope: currently everything\n\"\"\"\nx = 1\n"),
+})
+# a suppression comment below a line that holds a form feed inside a comment (str.splitlines() would count one line more)
+EXTRA.update({
+    "lazy-below-page-break.py": ("python", "lazy-ignores", 6, "\"\"\"\nPurpose: x\n\"\"\"\nA = 1  # section\x0c break\nB = 2\nimport os  # noqa\n"),
+})
+NOT_WRAPPED = ("stateless.py", "header-temporal-word.py", "lazy-below-page-break.py")
 _P = {}
 _TIER = {"t": "quick"}
 
@@ -143,7 +152,8 @@ def _proj():
         d = tempfile.mkdtemp(prefix="c12proj-")
         atexit.register(shutil.rmtree, d, True)
         (Path(d) / ".git").mkdir()
-        (Path(d) / ".thailint.yaml").write_text(triggers.BASE_CONFIG)
+        # a placement rule that every file breaks: whole-file findings must carry a position inside the file too
+        (Path(d) / ".thailint.yaml").write_text(triggers.BASE_CONFIG + "file-placement:\n  global_deny:\n    - pattern: '.*'\n      reason: nothing belongs here\n")
         (Path(d) / "src").mkdir()
         _P["d"] = Path(d)
     return _P["d"]
@@ -174,7 +184,7 @@ def h_offsets(ctx):
     for n, text in texts.items():
         body = text.rstrip("\n").split("\n")
         off = 0
-        if wrapped and n == main and not (lang == "python" and tname in ("stateless.py",)):
+        if wrapped and n == main and not (lang == "python" and tname in NOT_WRAPPED):
             body = WRAP[lang](body)
             off += WRAP_OFFSET[lang]
         if n == main:
@@ -198,9 +208,11 @@ def h_offsets(ctx):
     lines = main_text.split("\n")
     nlines = len(lines) - (1 if main_text.endswith("\n") else 0)
     run_files = {str(f) for f in files}
-    mine = [v for v in vs if v.file_path == str(d / "src" / main)]
+    def full(v):      # file-placement names files relative to the project root, every other rule the way they were given
+        return v.file_path if os.path.isabs(v.file_path) else str(d / v.file_path)
+    mine = [v for v in vs if full(v) == str(d / "src" / main)]
     for v in vs:
-        ctx.require("names-a-file-of-the-run", v.file_path in run_files, got=v.file_path)
+        ctx.require("names-a-file-of-the-run", full(v) in run_files, got=v.file_path)
     for v in mine:
         if v.rule_id.endswith("syntax-error"):
             continue
@@ -215,6 +227,7 @@ def h_offsets(ctx):
         if len(tail) >= 6 and tail in stripped and 1 <= v.line <= nlines:
             ctx.require("quoted-source-line-is-the-reported-line", stripped[v.line - 1] == tail, rule=v.rule_id, line=v.line,
                         quoted=tail, reported_line_text=stripped[v.line - 1])
+    ctx.require("whole-file-placement-finding-present", any(v.rule_id.startswith("file-placement") for v in mine), trigger=tname)
     own = [v for v in mine if v.rule_id.startswith(prefix)]
     at = [v for v in own if v.line in expected_lines]
     ctx.cover("found" if at else "not-found")
